@@ -72,3 +72,33 @@ C06_IDIOMS = {
                                                            If(Op("Less", Int(0), Rd("s")), Ret(Closure(["x"], Ret(Op("Add", Op("Add", Rd("s"), Rd("a")), Rd("x")))))),
                                                            Ret(Closure(["x"], Ret(Int(-1))))])),
 }
+
+
+# ---- C07: sharing by reference through variables, fields, captured variables, parameters ------------------
+C07_IDIOMS = {
+    "alias-variable": Prog([Set("t", Table()), Set("u", Rd("t")), Set("t.a", Int(1)), C("AppendTable", [Int(5), Rd("u")]),
+                            SetG("through_t", Rd("t")), SetG("through_u", Rd("u")), SetG("len", Op("Len", Rd("u")))]),
+    "table-in-field": Prog([Set("inner", Table()), Set("outer", Table()), Set("outer.child", Rd("inner")),
+                            Set("inner.x", Int(7)), SetG("seen", Rd("outer.child.x")),
+                            Set("outer.child.y", Int(8)), SetG("inner_after", Rd("inner"))]),
+    "captured-table": Prog([Set("t", Table()), Set("add", Closure(["v"], C("AppendTable", [Rd("v"), Rd("t")]), Ret(Op("Len", Rd("t"))))),
+                            SetG("a", Dyn(Rd("add"), Int(10))), SetG("b", Dyn(Rd("add"), Int(11))), Set("t.k", Str("x")),
+                            SetG("c", Dyn(Rd("add"), Int(12))), SetG("t", Rd("t"))]),
+    "parameter-mutation": Prog([Set("t", Arr(Int(1), Int(2))), Call("push9", Rd("t")), Call("push9", Rd("t")),
+                                SetG("t", Rd("t")), SetG("popped", Op("PopTable", Rd("t"))), SetG("after_pop", Rd("t"))],
+                               ("push9", ["x"], [C("AppendTable", [Int(9), Rd("x")]), Ret(Nil())])),
+    "global-and-local": Prog([SetG("g", Table()), Set("l", Rd("g")), Set("l.a", Int(1)), SetG("h", Rd("g")),
+                              C("SetProperty", [Int(2), Rd("g"), Str("b")]), SetG("l_after", Rd("l"))]),
+    "append-pop-keys": Prog([Set("t", Table()), C("AppendTable", [Int(10), Rd("t")]), C("AppendTable", [Int(11), Rd("t")]),
+                             SetG("p", Op("PopTable", Rd("t"))), SetG("k1", C("GetProperty", [Rd("t"), Int(1)])),
+                             C("AppendTable", [Int(12), Rd("t")]), C("SetProperty", [Int(13), Rd("t"), Int(5)]),
+                             C("AppendTable", [Int(14), Rd("t")]), SetG("t", Rd("t")),
+                             ForEach("i", "k", "v", Rd("t"), Blk(Log(Rd("i"), Rd("k"), Rd("v")))),
+                             SetG("row", C("Get", [Rd("t"), Int(1)]))]),
+    "equal-keys-by-content": Prog([Set("t", Table()), C("SetProperty", [Int(1), Rd("t"), Str("ab")]),
+                                   C("SetProperty", [Int(2), Rd("t"), Str("ab")]), C("SetProperty", [Int(3), Rd("t"), Real(1, 1)]),
+                                   C("SetProperty", [Int(4), Rd("t"), Op("Div", Int(1), Int(2))]), C("SetProperty", [Int(5), Rd("t"), Nil()]),
+                                   C("SetProperty", [Int(6), Rd("t"), Nil()]), C("SetProperty", [Int(7), Rd("t"), Op("Add", Int(1), Int(1))]),
+                                   C("SetProperty", [Int(8), Rd("t"), Int(2)]), SetG("t", Rd("t")), SetG("n", Op("Len", Rd("t"))),
+                                   SetG("missing", C("GetProperty", [Rd("t"), Str("zz")]))]),
+}
